@@ -308,6 +308,9 @@ class Model:
         self.views = {}
         self.serial = 0
         self.broken = None       # description when the real tree is known to be beyond comparison
+        self.listpool = {}       # (id(root), id(document), name) -> (root, document, (how, a, b)) of the FIRST getElementsByTagName(name) /
+                                 # getElementsByTagNameNS(null, name) list made for that root (mirror of DOMDocumentImpl::fNodeListPool)
+        self.pool_released = {}  # id(document) -> {(name, how)} of pooled lists whose root node has been released since
 
     # ------------------------------------------------------------------ handles
     def bind(self, h, n):
@@ -449,6 +452,11 @@ class Model:
             exp.cls = 'releases-node-referenced-by-view'
         inattr = set()
         for x in subtree(n):
+            if self.listpool and x.t == ELEMENT:
+                # the pool entry survives the node; the storage of x is handed out again by the next createElement of this document
+                for key in [k for k, val in self.listpool.items() if val[0] is x]:
+                    val = self.listpool.pop(key)
+                    self.pool_released.setdefault(id(val[1]), set()).add((key[2], val[2][0]))
             # attribute nodes of a released element: DOMElementImpl::release() releases them, DOMElementNSImpl::release() does not;
             # doc/program-dom.xml only promises "its associated children": NODE_DELETED for them is optional
             if x is not n and (x.t == ATTR or (x.parent is not None and id(x.parent) in inattr)):
@@ -1798,6 +1806,11 @@ class Model:
                         return None
             if name in BY_NAME_OPS and a[0].t == ELEMENT and a[0].mapdirty:
                 return 'attr-map-out-of-order'
+            if name == 'map' and len(a) > 2 and a[1] == 'get':
+                # NamedNodeMap.getNamedItem of a live map: the same binary search over the same (mis-ordered) vector
+                v = self.views.get(a[0])
+                if v is not None and v.kind == 'M' and v.el.mapdirty:
+                    return 'attr-map-out-of-order'
             if name == 'rename' and a[1].t == ATTR and not a[1].l2 and a[1].owner is not None and a[1].owner.mapdirty:
                 return 'attr-map-out-of-order'
             if name in ('wholeText', 'replaceWholeText'):
@@ -1819,7 +1832,7 @@ class Model:
         f = getattr(self, 'op_' + name, None)
         if f is None:
             raise Undecided('unknown operation ' + name)
-        dirty = name in BY_NAME_OPS and self.tail_class(op) == 'attr-map-out-of-order'
+        dirty = (name in BY_NAME_OPS or name == 'map') and self.tail_class(op) == 'attr-map-out-of-order'
         exp = f(want, *args)
         if dirty:
             exp.cls = 'attr-map-out-of-order'
@@ -1926,7 +1939,7 @@ KNOWN_DEVIATIONS = set(ALL_QUIRKS)
 # the same for the views of C14 (notes/C14.md)
 VIEW_QUIRKS = ('treewalker-previousNode-one-level', 'treewalker-hidden-node-filter-reject', 'range-selectNode-chardata-selects-contents',
                'range-toString-includes-comment-and-pi-data', 'range-contents-op-resets-offsets-in-partial-text',
-               'range-insertNode-readonly-newnode')
+               'range-insertNode-readonly-newnode', 'deeplist-pool-shares-tagname-and-null-namespace-lists')
 KNOWN_VIEW_DEVIATIONS = set(VIEW_QUIRKS)
 
 
@@ -3526,12 +3539,34 @@ def _op_tw(self, want, vid, what, *a):
     return e
 
 
+POOL_QUIRK = 'deeplist-pool-shares-tagname-and-null-namespace-lists'
+
+
 def _op_mkList(self, want, vid, how, n, a=None, b=None):
     e = Exp()
     if how in ('tag', 'tagNS') and n.t not in (ELEMENT, DOC):
         raise Undecided('deep node list on a non-element')
-    self.views[vid] = ListView(n.docnode(), how, n, a, b)
+    doc = n.docnode()
+    eff = (how, a, b)
     e.cls = how
+    if how == 'tag' or (how == 'tagNS' and a is None):
+        # DOMDocumentImpl::getDeepNodeList keeps every deep list in a pool keyed by (root node, name, namespace URI) and files the
+        # lists of getElementsByTagName(name) under namespace URI 0: getElementsByTagNameNS(null, name) on the same root finds that
+        # entry (and vice versa) and hands out the SAME list object, which matches by the rule of whichever call came first
+        name = a if how == 'tag' else b
+        other = 'tagNS' if how == 'tag' else 'tag'
+        if (name, other) in self.pool_released.get(id(doc), ()):
+            raise Undecided('deep node list pool: a released root node of this document had the other kind of list under this name')
+        key = (id(n), id(doc), name)
+        first = self.listpool.get(key)
+        if first is None:
+            self.listpool[key] = (n, doc, eff)
+        elif first[2][0] != how:
+            e.quirks.append(POOL_QUIRK)
+            e.cls = how + '-pooled-with-other-kind'
+            if POOL_QUIRK in self.quirk:
+                eff = first[2]
+    self.views[vid] = ListView(doc, eff[0], n, eff[1], eff[2])
     return e
 
 
@@ -3752,6 +3787,10 @@ def _op_rg(self, want, vid, what, *a):
         e.res = 's:' + esc(marked if 'range-toString-includes-comment-and-pi-data' in self.quirk else plain)
         return e
     if what == 'cloneRange':
+        if _root_of(v.sc) is not _root_of(v.ec):
+            # only reachable through splitText of a parentless Text node (the tail becomes a second parentless node): DOM Range
+            # requires both boundary points under one root and says nothing about such a range (Xerces' clone collapses to the end)
+            raise Undecided('range over two trees')
         nv = RangeView(v.doc)
         nv.sc, nv.so, nv.ec, nv.eo = v.sc, v.so, v.ec, v.eo
         self.views[a[0]] = nv
@@ -3987,6 +4026,15 @@ def _rg_insert(self, v, new, e, surround=False):
         if 'range-insertNode-readonly-newnode' in self.quirk:
             e.codes = errs | {NO_MOD}
             e.cls = 'insertNode-readonly-newnode'
+            return e
+    if errs == {HIERARCHY} and parent.t == DOC and sc is parent and new.t == FRAG and not new.is_ancestor_or_self_of(sc):
+        # a fragment whose children are acceptable one by one but exceed the one-element / one-doctype rule: the insertion is
+        # Node.insertBefore, including C13's deviation 'fragment-partial-insert' (children moved until the rule trips)
+        e2 = self.op_ins(None, parent, new, ref_now)
+        if e2.cls == 'fragment-exceeding-document-limits':
+            e.quirks.extend(e2.quirks)
+            e.codes = e2.codes
+            e.cls = 'insertNode-fragment-exceeding-document-limits'
             return e
     if errs:
         e.codes = errs
